@@ -39,7 +39,7 @@ LEVEL_NOTE = ("Partial proof + correspondence at three stages (~3k quick / 80k t
 
 I32 = 2**31 - 1
 HEU = ["level", "sign", "factor", "init", "true", "false"]
-NAMES = [b"a", b"b", b"p(1)", b"q(x,y)", b"c"]
+NAMES = [b"a", b"b", b"p(1)", b"q(x,y)", b"c", b'dir("C:\\\\")', b's("a\\"b,c")', b't("x)y")']   # string arguments: escaped backslash before the closing quote, escaped quote, separators inside a string
 
 def gen_case(rng):
     n = rng.randint(2, 5)
@@ -199,7 +199,8 @@ def generate(ctx):
     pool = [b"_heuristic(a,sign,1)", b"_heuristic(a,sign,1,2)", b"_heuristic(a,level,-2147483648)", b"_heuristic(a,init,2147483648)", b"_heuristic(a, sign,1)", b"_heuristic(,sign,1)",
             b"_heuristic(a,sign, +5 ,3)", b"_heuristic(f(a,b),true,1,-1)", b"_heuristic(\"x,y\",false,1)", b"_heuristic(\"x", b"_heuristic(a,sign,1)x", b"_heuristic(a,signal,1)",
             b"_edge(1,2)", b"_edge(a,b)x", b"_edge(f(1,2),g)", b"_edge(a", b"_edge(,b)", b"_edge(_heuristic(a,sign,1)\"", b"_acyc_1_2_3", b"_acyc_1_ 2_-3", b"_acyc_1_2_", b"_acyc_x_1_2",
-            b"_acyc_1_2_3rest", b"a", b"b", b"", b"_atom(3)", b"_edge(1,2", b"_heuristic(b,factor,99999999999)"]
+            b"_acyc_1_2_3rest", b"a", b"b", b"", b"_atom(3)", b"_edge(1,2", b"_heuristic(b,factor,99999999999)",
+            b'_heuristic("a\\\\",sign,1)', b'_heuristic(p("C:\\\\"),true,1,2)', b'_heuristic("a\\"b",level,3)', b'_heuristic("\\\\\\"",sign,1)', b'_heuristic("a\\",sign,1)', b'_edge("x\\\\","y")', b'_edge("a\\",b")']
     for _ in range(n // 3):
         out.append({"raw": progs.fuzz_symtab(ctx.rng, ctx.rng.random() < 0.3).hex(), "opts": "".join(ctx.rng.choice("01") for _ in range(4))})
     for _ in range(n // 2):
